@@ -25,10 +25,36 @@ type Consts struct {
 	CleanerSlots    int     `json:"cleaner_slots"`
 	CleanerInterval int64   `json:"cleaner_interval"`
 	Schedule        []int64 `json:"cleaner_schedule"`
+	// fix 1b06186: Drain delivers off the wheel goroutine - after a Drain of 9 timers whose callbacks
+	// all call back into the wheel, the wheel still takes a call from another goroutine
+	DrainOffLoop bool `json:"drain_off_loop"`
+}
+
+// drainOffLoop observes it on the running code (10 slots, 9 timers, re-entrant drain callbacks).
+func drainOffLoop() bool {
+	tk := &rticker{c: make(chan time.Time)}
+	tw, err := collection.NewTimingWheelWithTicker(time.Second, 10, func(k, v any) {}, tk)
+	if err != nil {
+		return false
+	}
+	defer tw.Stop()
+	for i := 0; i < 9; i++ {
+		tw.SetTimer(int64(i), int64(i), 3*time.Second)
+	}
+	tw.Drain(func(k, v any) { tw.SetTimer(k, v, 5*time.Second) })
+	done := make(chan struct{})
+	go func() { tw.SetTimer("later", int64(1), time.Second); close(done) }()
+	select {
+	case <-done:
+		return true
+	case <-time.After(5 * time.Second):
+		return false
+	}
 }
 
 func ReadConsts() (Consts, error) {
 	var k Consts
+	k.DrainOffLoop = drainOffLoop()
 	ci, err := newCacheInst(60000, 0)
 	if err != nil {
 		return k, err
